@@ -10,7 +10,7 @@ from .c14 import spec_parse
 MANIFEST = dict(
     engines="AB",
     technique="symbolic execution (CrossHair+z3) of Changelog.parse_changelog (strict) and ChangeBlock._format over deb-changelog(5) templates with symbolic package, version, distribution, urgency, urgency comment, extra key/value, change text, author and e-mail; regex-to-SMT lemmas that every grammar-shaped header/trailer/change line is in the language of the regex that must select it",
-    text="Engine A: for changelog templates (1-2 blocks; 1-2 distributions; urgency with/without comment; 0-1 extra key=value; change lines with blank lines, '#' and ':' in the text; trailer dates with/without weekday and 1/2-digit day; optional leading blank lines) with one or two components symbolic (up to 2-3 characters over the component's alphabet; change text arbitrary Unicode without line breaks): strict parsing raises nothing and warns nothing, str() reproduces the text byte-for-byte, and the blocks expose exactly the written fields in order. Engine B (line length unbounded): HEADER in match(topline), TRAILER in full(endline) with the two-space separator, CHANGE in full(changere) and outside endline/endline_nodetails, KEY=VALUE in full(keyvalue), urgency values in full(value_re), headers never blank.",
+    text="Engine A: for changelog templates (1-2 blocks; 1-2 distributions; urgency with/without comment; 0-1 extra key=value; change lines with blank lines, '#' and ':' in the text; trailer dates with/without weekday and 1/2-digit day; optional leading blank lines) with one or two components symbolic (up to 2-3 characters over the component's alphabet; change text arbitrary Unicode without line breaks): strict parsing raises nothing and warns nothing, str() reproduces the text byte-for-byte, and the blocks expose exactly the written fields in order. Engine B (line length unbounded): HEADER in match(topline), TRAILER in full(endline) with the two-space separator, CHANGE in full(changere) and outside endline/endline_nodetails, KEY=VALUE in full(keyvalue), urgency values in full(value_re), headers never blank. A shape with three extra key=value pairs in unsorted order (their order is compared).",
     note="Trusted: CrossHair str/regex models (repaired; IGNORECASE mask repair), z3 regex theory with alphabet clipping to U+0000..U+00FF for the lemmas. Outside: more than 2 blocks, bytes/file inputs (one concrete template each), max_blocks.",
 )
 
